@@ -184,9 +184,10 @@ def cosim(ctx, native):
     n = 0
     for fty in ("f64", "f32"):
         f = get_fn(prog, "from", ["Decimal"], fty)
-        for _ in range(60):
+        for _ in range(150):
             p = rng.randint(1, 18)
-            c = rng.choice([1, -1, 9007199254740993, 90071992547409905000000000001, 10101010101010101, rng.randint(-MAXC, MAXC), rng.randint(-10 ** 20, 10 ** 20), 5 * 10 ** p + 1])
+            c = rng.choice([1, -1, 9007199254740993, 90071992547409905000000000001, 10101010101010101, rng.randint(-MAXC, MAXC), rng.randint(-10 ** 20, 10 ** 20), 5 * 10 ** p + 1,
+                            rng.randint(-(1 << 24), 1 << 24), rng.randint(-(1 << 53), 1 << 53), rng.randint(1, 99999), (1 << rng.randint(60, 126)) + (1 << 64) * rng.randint(0, 9)])
             if c == 0:
                 c = 3
             ex = new_executor(ctx, prog)
@@ -198,6 +199,6 @@ def cosim(ctx, native):
             if obs != mine:
                 raise RuntimeError("MIR interpreter %r vs native %r for %s %s" % (mine, obs, fty, (c, p)))
             if obs != ref:
-                raise RuntimeError("reference oracle %r vs native %r for %s %s (oracle self-test)" % (ref, obs, fty, (c, p)))
+                raise NativeViolation("5 to_%s %s" % (fty, fmt_dec(c, p)), obs, ref)
             n += 1
     return n
